@@ -1,4 +1,4 @@
-import AmVerif.Lemmas.Source
+import AmVerif.Lemmas.Archive
 import AmVerif.Gen.Archive
 /-!
 # C04 — every source shows the same tree: FileSystem, Zip, Tar, Embedded
@@ -13,7 +13,7 @@ source** (findings F-C04, empty-archive root, FileSystem kind confusion): they a
 (`*_partial`).
 -/
 namespace AmVerif.Props.C04
-open AmVerif.Model.Source AmVerif.Model.ArchiveSkel AmVerif.Lemmas.Source AmVerif.Gen.Archive
+open AmVerif.Model.Source AmVerif.Model.ArchiveSkel AmVerif.Lemmas.Source AmVerif.Lemmas.Archive AmVerif.Gen.Archive
 
 /-- Listings are compared as multisets; errors must be the same error. -/
 def ResPerm : Res (List Entry) → Res (List Entry) → Prop
@@ -46,12 +46,23 @@ theorem ViewEq.trans {u v w} (h : ViewEq u v) (h' : ViewEq v w) : ViewEq u w :=
 /-- `register_file` of zip.rs and of tar.rs have the same effect skeleton (they differ only in the
 container API), and it is the one the model interprets: builder reset, component walk
 (push / pop / skip / refuse), parent id, stem, id; files: extension, `FileDesc(id, ext)`,
-`files.insert`; directories: `dirs.insert(id, [])` **guarded by `contains_key`**; then the push
-into the parent's listing. -/
-theorem C04_register_skeleton : zipRegister = registerSkel ∧ tarRegister = registerSkel := by decide
+`files.insert`, **`register_dir(parent)`**, push into the parent's listing; directories:
+**`register_dir(id)`**. `register_dir` is the same in both files too: return if the directory is
+known, insert an empty listing, and — unless it is the root — register the parent and push the
+directory into the parent's listing. Both `create` functions register the root directory before
+any member. -/
+theorem C04_register_skeleton :
+    zipRegister = registerSkel ∧ tarRegister = registerSkel ∧
+    zipRegisterDir = registerDirSkel ∧ tarRegisterDir = registerDirSkel ∧
+    zipCreateRegistersRoot = true ∧ tarCreateRegistersRoot = true := by decide
 
 /-- Each `read` of an archive works on its own clone of the reader (no shared file offset). -/
 theorem C04_reads_use_own_reader : zipReadClonesReader = true ∧ tarReadClonesReader = true := by decide
+
+/-- `FileSystem::exists` tests the kind of the entry, `read` / `read_dir` report an entry of the
+wrong kind as not found: the kind tests of the model `fsView` are those of the source. -/
+theorem C04_fs_kind_tests :
+    (⟨fsExistsChecksKind, fsReadNonFileNotFound, fsReadDirNonDirNotFound⟩ : FsCfg) = fsCfg := by decide
 
 /-! ## archives -/
 
@@ -62,24 +73,8 @@ def C04_archive_stmt : Prop :=
 /-- The tree `d/e/f.x`. -/
 def witnessTree : Tree :=
   { files := [{ dir := [['d'], ['e']], stem := ['f'], ext := ['x'], bytes := [] }], dirs := [[['d']], [['d'], ['e']]] }
-/-- Its archive without directory members. -/
+/-- Its archive without directory members (the witness of F-C04 before the repair). -/
 def witnessArchive : List Member := [{ abs := false, comps := [['d'], ['e'], ['f', '.', 'x']], isFile := true, bytes := [] }]
-
-/-- F-C04: an archive whose only member is `d/e/f.x` does not know the directory `d`. -/
-theorem C04_archive_refuted : ¬ C04_archive_stmt := by
-  intro h
-  have hv : ValidTree witnessTree := by decide
-  have ha : Archives witnessTree witnessArchive := by decide
-  have := (h witnessTree witnessArchive hv ha).exist (.dir ['d'])
-  revert this
-  decide
-
-/-- Second witness: the empty tree and its empty archive — the root itself is unknown. -/
-theorem C04_archive_refuted_empty : ¬ C04_archive_stmt := by
-  intro h
-  have := (h ⟨[], []⟩ [] (by decide) (by decide)).exist (.dir [])
-  revert this
-  decide
 
 theorem any_eq_find_isSome {α} (l : List α) (p : α → Bool) : l.any p = (l.find? p).isSome := by
   induction l with
@@ -88,10 +83,6 @@ theorem any_eq_find_isSome {α} (l : List α) (p : α → Bool) : l.any p = (l.f
 
 /-- (key, content) pairs of the tree's files. -/
 def treeKVs (t : Tree) : List ((Id × Name) × Bytes) := t.files.map fun f => ((fileId f, f.ext), f.bytes)
-
-theorem fileKVs_regsOfTree (t : Tree) : fileKVs (regsOfTree t) = treeKVs t := by
-  simp [fileKVs, regsOfTree, List.filterMap_append, List.filterMap_map, treeKVs, Reg.kv, fileReg, dirReg,
-    Function.comp_def]
 
 theorem sem_read_eq (t : Tree) (id : Id) (ext : Name) :
     (sem t).read id ext =
@@ -120,81 +111,17 @@ theorem validTree_keys (t : Tree) (hv : ValidTree t) : ((treeKVs t).map (·.1)).
   have := hv.2.2.1
   simpa [treeKVs, List.map_map, Function.comp_def] using this
 
-theorem joinDot_nil : joinDot [] = [] := rfl
-
-/-- In a non-empty valid tree some entry lies directly in the root. -/
-theorem exists_top (t : Tree) (hv : ValidTree t) (hne : t.isEmpty = false) :
-    ∃ r ∈ regsOfTree t, r.parent = [] := by
-  have hdirs : ∀ n, ∀ q ∈ t.dirs, q.length ≤ n → ∃ r ∈ regsOfTree t, r.parent = [] := by
-    intro n
-    induction n with
-    | zero =>
-      intro q hq hl
-      have : q = [] := List.length_eq_zero_iff.mp (Nat.le_zero.mp hl)
-      exact absurd this (hv.2.1 q hq).1
-    | succ n ih =>
-      intro q hq hl
-      rcases (hv.2.1 q hq).2.2 with h | h
-      · exact ⟨dirReg q, by simp [regsOfTree]; exact Or.inr ⟨q, hq, rfl⟩, by simp [dirReg, h, dirId, joinDot]⟩
-      · apply ih q.dropLast h
-        have : q ≠ [] := (hv.2.1 q hq).1
-        have := List.length_dropLast (xs := q)
-        cases q with
-        | nil => simp_all
-        | cons a as => simp at hl ⊢; omega
-  cases hd : t.dirs with
-  | cons q qs => exact hdirs q.length q (by simp [hd]) (Nat.le_refl _)
-  | nil =>
-    cases hf : t.files with
-    | nil => simp [Tree.isEmpty, hd, hf] at hne
-    | cons f fs =>
-      have hfm : f ∈ t.files := by simp [hf]
-      rcases (hv.1 f hfm).2.2.2 with h | h
-      · exact ⟨fileReg f, by simp [regsOfTree]; exact Or.inl ⟨f, hfm, rfl⟩, by simp [fileReg, h, dirId, joinDot]⟩
-      · simp [hd] at h
-
-theorem mentioned_perm {a b : List Reg} (h : a.Perm b) (p : Id) : mentioned a p = mentioned b p := by
-  unfold mentioned
-  rw [Bool.eq_iff_iff]
-  simp only [List.any_eq_true]
-  constructor
-  · rintro ⟨r, hr, hp⟩; exact ⟨r, h.mem_iff.mp hr, hp⟩
-  · rintro ⟨r, hr, hp⟩; exact ⟨r, h.mem_iff.mpr hr, hp⟩
-
-/-- With a member for every directory (and a non-empty tree) the known directories are exactly
-the tree's. -/
-theorem mentioned_regs (t : Tree) (hv : ValidTree t) (hne : t.isEmpty = false) (p : Id) :
-    mentioned (regsOfTree t) p = isDirId t p := by
-  rw [Bool.eq_iff_iff]
-  simp only [mentioned, List.any_eq_true, isDirId, Bool.or_eq_true, decide_eq_true_eq, Bool.and_eq_true,
-    Option.isNone_iff_eq_none, List.mem_map]
-  constructor
-  · rintro ⟨r, hr, hp⟩
-    simp only [regsOfTree, List.mem_append, List.mem_map] at hr
-    rcases hr with ⟨f, hf, rfl⟩ | ⟨q, hq, rfl⟩
-    · rcases hp with hp | hp
-      · rcases (hv.1 f hf).2.2.2 with h | h
-        · left; simpa [fileReg, h, dirId, joinDot] using hp.symm
-        · right; exact ⟨f.dir, h, by simpa [fileReg] using hp⟩
-      · simp [fileReg] at hp
-    · rcases hp with hp | hp
-      · rcases (hv.2.1 q hq).2.2 with h | h
-        · left; simpa [dirReg, h, dirId, joinDot] using hp.symm
-        · right; exact ⟨q.dropLast, h, by simpa [dirReg] using hp⟩
-      · right; exact ⟨q, hq, by simpa [dirReg] using hp.2⟩
-  · rintro (hp | ⟨q, hq, hp⟩)
-    · obtain ⟨r, hr, hpar⟩ := exists_top t hv hne
-      exact ⟨r, hr, Or.inl (by rw [hpar, hp])⟩
-    · exact ⟨dirReg q, by simp [regsOfTree]; exact Or.inr ⟨q, hq, rfl⟩, Or.inr ⟨by simp [dirReg], by simpa [dirReg] using hp⟩⟩
-
 theorem parseCore_dir_bytes (q : List Name) (b : Bytes) : parseCore q false b = parseCore q false [] := by
   simp [parseCore]
 
-/-- The registrations of an archive with a member for every directory are, up to order, the
-tree's entries. -/
-theorem regs_perm (t : Tree) (ms : List Member) (hv : ValidTree t) (ha : Archives t ms) (hd : DirsHaveMembers t ms) :
-    (ms.filterMap parseMember).Perm (regsOfTree t) := by
-  obtain ⟨habs, hfiles, hnd, hsub⟩ := ha
+/-- The directories that have a member of their own. -/
+def dirMembers (ms : List Member) : List (List Name) := (ms.filter (fun m => !m.isFile)).map Member.norm
+
+/-- The registrations of an archive are, up to order, the tree's files and the directories that
+have a member. -/
+theorem regs_perm (t : Tree) (ms : List Member) (hv : ValidTree t) (ha : Archives t ms) :
+    (ms.filterMap parseMember).Perm (t.files.map fileReg ++ (dirMembers ms).map dirReg) := by
+  obtain ⟨habs, hfiles, _, hsub, _⟩ := ha
   have hsplit := (List.filter_append_perm (fun m : Member => m.isFile) ms).symm
   refine (hsplit.filterMap parseMember).trans ?_
   rw [List.filterMap_append]
@@ -219,97 +146,237 @@ theorem regs_perm (t : Tree) (ms : List Member) (hv : ValidTree t) (ha : Archive
       simp [parseCore_file f f.bytes ⟨this.1, this.2.1, this.2.2.1⟩, fileReg]
     rw [this]
   · -- directories
-    have h1 : (ms.filter (fun m => !m.isFile)).filterMap parseMember =
-        ((ms.filter (fun m => !m.isFile)).map Member.norm).filterMap (fun q => parseCore q false []) := by
-      rw [List.filterMap_map]
+    have h1 : (ms.filter (fun m => !m.isFile)).filterMap parseMember = (dirMembers ms).map dirReg := by
+      unfold dirMembers
+      rw [List.map_map, ← List.filterMap_eq_map]
       apply filterMap_congr'
       intro m hm
       have hm' := List.mem_filter.mp hm
       have hf : m.isFile = false := by simpa using hm'.2
-      simp [parseMember, habs m hm'.1, Member.norm, hf, parseCore_dir_bytes _ m.bytes]
+      have hq := hv.2.1 _ (hsub m hm'.1 hf)
+      simp [parseMember, habs m hm'.1, hf, parseCore_dir_bytes _ m.bytes, Member.norm] at hq ⊢
+      exact parseCore_dir _ [] ⟨hq.1, hq.2.1⟩
     rw [h1]
-    have hdn : t.dirs.Nodup := nodup_of_map _ _ hv.2.2.2.1
-    have hperm : ((ms.filter (fun m => !m.isFile)).map Member.norm).Perm t.dirs := by
-      rw [List.perm_ext_iff_of_nodup hnd hdn]
-      intro q
-      constructor
-      · intro hq
-        obtain ⟨m, hm, rfl⟩ := List.mem_map.mp hq
-        have hm' := List.mem_filter.mp hm
-        exact hsub m hm'.1 (by simpa using hm'.2)
-      · intro hq
-        obtain ⟨m, hm, hf, rfl⟩ := hd q hq
-        exact List.mem_map.mpr ⟨m, List.mem_filter.mpr ⟨hm, by simp [hf]⟩, rfl⟩
-    refine (hperm.filterMap _).trans ?_
-    have : t.dirs.filterMap (fun q => parseCore q false []) = t.dirs.map dirReg := by
-      rw [← List.filterMap_eq_map]
-      apply filterMap_congr'
-      intro q hq
-      have := hv.2.1 q hq
-      simp [parseCore_dir q [] ⟨this.1, this.2.1⟩]
-    rw [this]
 
-/-- The view of an index built (most recent first) from any permutation of the tree's entries. -/
-theorem view_of_regs (t : Tree) (hv : ValidTree t) (hne : t.isEmpty = false) (rv : List Reg)
-    (hp : rv.Perm (regsOfTree t)) : ViewEq (viewOfIdx (indexR rv)) (sem t) := by
+theorem fileKVs_files_dirs (t : Tree) (ds : List (List Name)) :
+    fileKVs (t.files.map fileReg ++ ds.map dirReg) = treeKVs t := by
+  simp [fileKVs, List.filterMap_append, List.filterMap_map, treeKVs, Reg.kv, fileReg, dirReg, Function.comp_def]
+
+/-- If a directory is registered, so are the directories above it. -/
+theorem has_prefix {t : Tree} {L : List Reg} {d : DirMap} (I : Inv t L d) (q : List Name) :
+    ∀ (n : Nat) (s : List Name), s.length = n → (∀ c ∈ q ++ s, ValidName c) → has d (dirId (q ++ s)) → has d (dirId q) := by
+  intro n
+  induction n with
+  | zero =>
+    intro s hs _ h
+    have : s = [] := List.length_eq_zero_iff.mp hs
+    simpa [this] using h
+  | succ n ih =>
+    intro s hs hv h
+    have hne : s ≠ [] := by intro e; simp [e] at hs
+    have hs' : s = s.dropLast ++ [s.getLast hne] := (List.dropLast_concat_getLast hne).symm
+    have hq : q ++ s = (q ++ s.dropLast) ++ [s.getLast hne] := by rw [List.append_assoc, ← hs']
+    have hne2 : q ++ s ≠ [] := by simp [hne]
+    have hup := (I.up _ h (dirId_ne_nil _ hne2 hv)).1
+    rw [par_dirId _ hne2 hv, hq, List.dropLast_concat] at hup
+    apply ih s.dropLast (by simp [hs]) ?_ hup
+    intro c hc
+    apply hv c
+    rw [hq]; exact List.mem_append_left _ hc
+
+/-- The entries of a valid tree are pairwise different. -/
+theorem entries_nodup (t : Tree) (hv : ValidTree t) : ((regsOfTree t).map Reg.entry).Nodup := by
+  unfold regsOfTree
+  rw [List.map_append, List.map_map, List.map_map]
+  apply List.nodup_append.mpr
+  refine ⟨?_, ?_, ?_⟩
+  · have := hv.2.2.1
+    rw [List.Nodup, List.pairwise_map] at this ⊢
+    exact this.imp (fun {a b} h e => h (by simpa [fileReg, Reg.entry] using e))
+  · have := hv.2.2.2.1
+    rw [List.Nodup, List.pairwise_map] at this ⊢
+    exact this.imp (fun {a b} h e => h (by simpa [dirReg, Reg.entry] using e))
+  · intro a ha b hb
+    obtain ⟨f, _, rfl⟩ := List.mem_map.mp ha
+    obtain ⟨q, _, rfl⟩ := List.mem_map.mp hb
+    simp [fileReg, dirReg, Reg.entry]
+
+theorem filterMap_child_sublist (p : Id) (l : List Reg) : (l.filterMap (childEntry p)).Sublist (l.map Reg.entry) := by
+  induction l with
+  | nil => exact List.Sublist.slnil
+  | cons r rs ih =>
+    by_cases h : r.parent = p
+    · simp only [List.filterMap_cons, childEntry, h, if_true, List.map_cons]
+      exact ih.cons_cons _
+    · simp only [List.filterMap_cons, childEntry, h, if_false, List.map_cons]
+      exact ih.cons _
+
+theorem mem_spec (t : Tree) (p : Id) (e : Entry) :
+    e ∈ (regsOfTree t).filterMap (childEntry p) ↔ ∃ r ∈ regsOfTree t, r.parent = p ∧ r.entry = e := by
+  simp only [List.mem_filterMap, childEntry]
+  constructor
+  · rintro ⟨r, hr, h⟩
+    by_cases hp : r.parent = p
+    · exact ⟨r, hr, hp, by simpa [hp] using h⟩
+    · simp [hp] at h
+  · rintro ⟨r, hr, hp, he⟩
+    exact ⟨r, hr, by simp [hp, he]⟩
+
+/-- **Archives, full strength.** A zip / tar archive of a valid tree — members in any order, with
+or without `./`, directories with or without a member of their own (also after their content),
+the empty archive of the empty tree included — shows exactly that tree: `read`, `read_dir` (up to
+the order of the listing) and `exists` answer as the specification does. -/
+theorem C04_archive : C04_archive_stmt := by
+  intro t ms hv ha
+  have hperm := regs_perm t ms hv ha
+  obtain ⟨_, _, _, hsub, hcover⟩ := ha
+  rw [index_eq]
+  generalize hrv : (ms.filterMap parseMember).reverse = rv
+  have hperm' : rv.Perm (t.files.map fileReg ++ (dirMembers ms).map dirReg) := by
+    rw [← hrv]; exact (List.reverse_perm _).trans hperm
+  have hds : ∀ q ∈ dirMembers ms, q ∈ t.dirs := by
+    intro q hq
+    obtain ⟨m, hm, rfl⟩ := List.mem_map.mp hq
+    have hm' := List.mem_filter.mp hm
+    exact hsub m hm'.1 (by simpa using hm'.2)
+  have hsubt : ∀ r ∈ rv, r ∈ regsOfTree t := by
+    intro r hr
+    rcases List.mem_append.mp (hperm'.mem_iff.mp hr) with h | h
+    · exact List.mem_append_left _ h
+    · obtain ⟨q, hq, rfl⟩ := List.mem_map.mp h
+      exact List.mem_append_right _ (List.mem_map.mpr ⟨q, hds q hq, rfl⟩)
   have hkv : (fileKVs rv).Perm (treeKVs t) := by
-    rw [← fileKVs_regsOfTree]; exact hp.filterMap _
-  have hfiles : ∀ k, (indexR rv).files k =
-      ((treeKVs t).find? (fun kv => decide (kv.1 = k))).map (·.2) := by
+    rw [← fileKVs_files_dirs t (dirMembers ms)]; exact hperm'.filterMap _
+  have hkeys : ((fileKVs rv).map (·.1)).Nodup := (hkv.map _).nodup_iff.mpr (validTree_keys t hv)
+  have I := inv_indexR hv rv hsubt hkeys
+  have hfiles : ∀ k, (indexR rv).files k = ((treeKVs t).find? (fun kv => decide (kv.1 = k))).map (·.2) := by
     intro k
     rw [indexR_files, lookup_of_perm t (validTree_keys t hv) _ hkv]
-  have hdirs : ∀ p, (indexR rv).dirs p =
-      if isDirId t p then some (rv.filterMap (childEntry p)).reverse else none := by
+  obtain ⟨D, hD⟩ : ∃ D, D = (indexR rv).dirs := ⟨_, rfl⟩
+  rw [← hD] at I
+  -- the registered directories are exactly the tree's
+  have hhas : ∀ p, has D p ↔ isDirId t p = true := by
     intro p
-    rw [indexR_dirs, mentioned_perm hp, mentioned_regs t hv hne]
+    refine ⟨I.sound p, fun h => ?_⟩
+    rcases (isDirId_iff t p).mp h with h | ⟨q, hq, rfl⟩
+    · rw [h]; exact I.root
+    · have hqv := hv.2.1 q hq
+      rcases hcover q hq with ⟨f, hf, hpre⟩ | ⟨m, hm, hmf, hpre⟩
+      · obtain ⟨s, hs⟩ := List.isPrefixOf_iff_prefix.mp hpre
+        have hfin : fileReg f ∈ rv := hperm'.mem_iff.mpr (List.mem_append_left _ (List.mem_map.mpr ⟨f, hf, rfl⟩))
+        have := has_of_mem_lst _ _ _ (I.fileIn _ hfin f.ext f.bytes rfl)
+        apply has_prefix I q s.length s rfl ?_ (by rw [hs]; exact this)
+        rw [hs]; exact (hv.1 f hf).1
+      · obtain ⟨s, hs⟩ := List.isPrefixOf_iff_prefix.mp hpre
+        have hmd : m.norm ∈ dirMembers ms := List.mem_map.mpr ⟨m, List.mem_filter.mpr ⟨hm, by simp [hmf]⟩, rfl⟩
+        have hfin : dirReg m.norm ∈ rv := hperm'.mem_iff.mpr (List.mem_append_right _ (List.mem_map.mpr ⟨_, hmd, rfl⟩))
+        have := I.dirIn _ hfin rfl
+        apply has_prefix I q s.length s rfl ?_ (by rw [hs]; exact this)
+        rw [hs]; exact (hv.2.1 _ (hds _ hmd)).2.1
+  -- and each is listed as in the tree
+  have hlist : ∀ p, isDirId t p = true → (lst D p).Perm ((regsOfTree t).filterMap (childEntry p)) := by
+    intro p hp
+    apply (List.perm_ext_iff_of_nodup (I.nodup p) ((filterMap_child_sublist p _).nodup (entries_nodup t hv))).mpr
+    intro e
+    rw [mem_spec]
+    constructor
+    · intro he
+      cases e with
+      | file i x =>
+        obtain ⟨r, hr, h1, h2, b, h3⟩ := I.fileOk p i x he
+        exact ⟨r, hsubt r hr, h1, by simp [Reg.entry, h3, h2]⟩
+      | dir q =>
+        obtain ⟨h1, h2, h3⟩ := I.dirOk p q he
+        rcases (isDirId_iff t q).mp ((hhas q).mp h3) with h | ⟨q', hq', rfl⟩
+        · exact absurd h h1
+        · have hqv := hv.2.1 q' hq'
+          refine ⟨dirReg q', List.mem_append_right _ (List.mem_map.mpr ⟨q', hq', rfl⟩), ?_, rfl⟩
+          rw [← h2, par_dirId q' hqv.1 hqv.2.1]; rfl
+    · rintro ⟨r, hr, h1, h2⟩
+      rcases List.mem_append.mp hr with h | h
+      · obtain ⟨f, hf, rfl⟩ := List.mem_map.mp h
+        have hfin : fileReg f ∈ rv := hperm'.mem_iff.mpr (List.mem_append_left _ (List.mem_map.mpr ⟨f, hf, rfl⟩))
+        have := I.fileIn _ hfin f.ext f.bytes rfl
+        rw [h1] at this
+        rw [← h2]; exact this
+      · obtain ⟨q, hq, rfl⟩ := List.mem_map.mp h
+        have hqv := hv.2.1 q hq
+        have hq1 : has D (dirId q) := (hhas _).mpr ((isDirId_iff t _).mpr (Or.inr ⟨q, hq, rfl⟩))
+        have := (I.up _ hq1 (dirId_ne_nil q hqv.1 hqv.2.1)).2
+        rw [par_dirId q hqv.1 hqv.2.1] at this
+        rw [← h2, ← h1]; exact this
+  have hdget : ∀ p, dget D p = if isDirId t p = true then some (lst D p) else none := by
+    intro p
+    by_cases h : isDirId t p = true
+    · have := (hhas p).mpr h
+      unfold has at this
+      rw [if_pos h]; unfold lst
+      cases hd : dget D p with
+      | none => simp [hd] at this
+      | some v => rfl
+    · have : ¬ has D p := fun hh => h ((hhas p).mp hh)
+      unfold has at this
+      rw [if_neg h]
+      cases hd : dget D p with
+      | none => rfl
+      | some v => simp [hd] at this
   constructor
   · intro id ext
     rw [sem_read_eq]
     show (match (indexR rv).files (id, ext) with | some b => Res.ok b | none => Res.err Err.notFound) = _
     rw [hfiles]
   · intro p
-    simp only [viewOfIdx, hdirs, sem]
-    by_cases h : isDirId t p
-    · simp only [h, if_true, ResPerm]
-      exact (List.reverse_perm _).trans (hp.filterMap _)
+    show ResPerm (match dget (indexR rv).dirs p with | some es => Res.ok es | none => Res.err Err.notFound) _
+    rw [← hD, hdget]
+    simp only [sem]
+    by_cases h : isDirId t p = true
+    · simp only [h, if_true, ResPerm]; exact hlist p h
     · simp [h, ResPerm]
   · intro e
     cases e with
-    | file id ext => rw [sem_exist_file_eq]; simp only [viewOfIdx, hfiles]
+    | file id ext =>
+      rw [sem_exist_file_eq]
+      show ((indexR rv).files (id, ext)).isSome = _
+      rw [hfiles]
     | dir p =>
-      simp only [viewOfIdx, hdirs, sem]
-      by_cases h : isDirId t p <;> simp [h]
+      show (dget (indexR rv).dirs p).isSome = _
+      rw [← hD, hdget]
+      simp only [sem]
+      by_cases h : isDirId t p = true <;> simp [h]
 
-/-- **Archives, under the hypothesis that carves out the findings**: if every directory of the
-tree has its own member and the tree is not empty, a zip / tar archive of a valid tree — members
-in any order, with or without `./` — shows exactly that tree. -/
-theorem C04_archive_partial (t : Tree) (ms : List Member) (hv : ValidTree t) (ha : Archives t ms)
-    (hd : DirsHaveMembers t ms) (hne : t.isEmpty = false) :
-    ViewEq (viewOfIdx (index ms)) (sem t) := by
-  rw [index_eq]
-  exact view_of_regs t hv hne _ ((List.reverse_perm _).trans (regs_perm t ms hv ha hd))
+/-- F-C04's former witness, now an instance: `d/e/f.x` alone shows the directories `d` and `d.e`. -/
+example : ValidTree witnessTree ∧ Archives witnessTree witnessArchive ∧
+    (viewOfIdx (index witnessArchive)).exist (.dir ['d']) = true ∧
+    (viewOfIdx (index witnessArchive)).readDir [] = .ok [.dir ['d']] := by decide
 
-example : ValidTree witnessTree ∧ Archives witnessTree
-    (witnessArchive ++ [⟨false, [['.'], ['d'], ['e']], false, []⟩, ⟨false, [['d']], false, []⟩]) ∧
-    DirsHaveMembers witnessTree (witnessArchive ++ [⟨false, [['.'], ['d'], ['e']], false, []⟩, ⟨false, [['d']], false, []⟩]) ∧
-    witnessTree.isEmpty = false := by decide
+/-- The empty archive of the empty tree: the root exists and is empty. -/
+example : Archives ⟨[], []⟩ [] ∧ (viewOfIdx (index [])).readDir [] = .ok [] ∧
+    (viewOfIdx (index [])).exist (.dir []) = true := by decide
+
+example : Archives witnessTree
+    (witnessArchive ++ [⟨false, [['.'], ['d'], ['e']], false, []⟩, ⟨false, [['d']], false, []⟩]) := by decide
 
 theorem archives_perm {t : Tree} {a b : List Member} (h : a.Perm b) (ha : Archives t a) : Archives t b := by
-  obtain ⟨h1, h2, h3, h4⟩ := ha
-  refine ⟨fun m hm => h1 m (h.mem_iff.mpr hm), ?_, ?_, fun m hm => h4 m (h.mem_iff.mpr hm)⟩
+  obtain ⟨h1, h2, h3, h4, h5⟩ := ha
+  refine ⟨fun m hm => h1 m (h.mem_iff.mpr hm), ?_, ?_, fun m hm => h4 m (h.mem_iff.mpr hm), ?_⟩
   · exact (((h.filter _).map _).symm).trans h2
   · exact (((h.filter _).map _).nodup_iff).mp h3
+  · intro q hq
+    rcases h5 q hq with h' | ⟨m, hm, h'⟩
+    · exact Or.inl h'
+    · exact Or.inr ⟨m, h.mem_iff.mp hm, h'⟩
 
 /-- The order of the members is irrelevant (in particular a directory member may come after the
-files it contains: the `contains_key` guard keeps the listing). -/
+files it contains, or be missing altogether). -/
 theorem C04_archive_order_irrelevant (t : Tree) (ms ms' : List Member) (hperm : ms.Perm ms') (hv : ValidTree t)
-    (ha : Archives t ms) (hd : DirsHaveMembers t ms) (hne : t.isEmpty = false) :
-    ViewEq (viewOfIdx (index ms)) (viewOfIdx (index ms')) := by
-  have ha' := archives_perm hperm ha
-  have hd' : DirsHaveMembers t ms' := fun q hq => by
-    obtain ⟨m, hm, h⟩ := hd q hq
-    exact ⟨m, hperm.mem_iff.mp hm, h⟩
-  exact (C04_archive_partial t ms hv ha hd hne).trans (C04_archive_partial t ms' hv ha' hd' hne).symm
+    (ha : Archives t ms) : ViewEq (viewOfIdx (index ms)) (viewOfIdx (index ms')) :=
+  (C04_archive t ms hv ha).trans (C04_archive t ms' hv (archives_perm hperm ha)).symm
+
+/-- Directory members are redundant: dropping every directory member that is on the path of
+another member does not change the view (both are archives of the same tree). -/
+theorem C04_archive_dir_members_irrelevant (t : Tree) (ms ms' : List Member) (hv : ValidTree t)
+    (ha : Archives t ms) (ha' : Archives t ms') : ViewEq (viewOfIdx (index ms)) (viewOfIdx (index ms')) :=
+  (C04_archive t ms hv ha).trans (C04_archive t ms' hv ha').symm
 
 /-! ## Embedded -/
 
@@ -511,20 +578,35 @@ example : ((Readers.mk (index witnessArchive) (fun _ => [.exist (.dir ['d', '.',
 
 /-! ## FileSystem -/
 
-/-- Full strength: the file-system view of a valid tree is the specification view. -/
-def C04_fs_stmt : Prop := ∀ t, ValidTree t → ViewEq (fsView t) (sem t)
+/-- Well-formed ids: dot-separated valid names (the empty list is the root id `""`). Ids with
+empty components (`"a..b"`, `".a"`, `"a."`) are outside the property: `path_of_entry` drops the
+empty components, so `FileSystem` resolves `"a..b"` like `"a.b"` — compared model-versus-code by
+the `src` engine, without oracle. -/
+def WfComps (cs : List Name) : Prop := ∀ c ∈ cs, ValidName c
 
-/-- **Kind confusion** (`FileSystem::exists` is `Path::exists`): in the tree with the single
-directory `d`, `exists(File("d", ""))` is true although no such file exists (and `read("d", "")`
-fails with *is a directory* instead of *not found*). -/
-theorem C04_fs_refuted : ¬ C04_fs_stmt := by
-  intro h
-  have := (h ⟨[], [[['d']]]⟩ (by decide)).exist (.file ['d'] [])
-  revert this
-  decide
+/-- Two views answer alike on every well-formed id (and dot-free extension). -/
+structure ViewEqWf (v w : View) : Prop where
+  read : ∀ cs ext, WfComps cs → ValidExt ext → v.read (joinDot cs) ext = w.read (joinDot cs) ext
+  readDir : ∀ cs, WfComps cs → ResPerm (v.readDir (joinDot cs)) (w.readDir (joinDot cs))
+  existFile : ∀ cs ext, WfComps cs → ValidExt ext →
+    v.exist (.file (joinDot cs) ext) = w.exist (.file (joinDot cs) ext)
+  existDir : ∀ cs, WfComps cs → v.exist (.dir (joinDot cs)) = w.exist (.dir (joinDot cs))
 
-theorem C04_fs_refuted_read : (fsView ⟨[], [[['d']]]⟩).read ['d'] [] = .err .isDir ∧
-    (sem ⟨[], [[['d']]]⟩).read ['d'] [] = .err .notFound := by decide
+theorem ViewEq.toWf {v w} (h : ViewEq v w) : ViewEqWf v w :=
+  ⟨fun _ _ _ _ => h.read _ _, fun _ _ => h.readDir _, fun _ _ _ _ => h.exist _, fun _ _ => h.exist _⟩
+
+theorem ViewEqWf.symm {v w} (h : ViewEqWf v w) : ViewEqWf w v :=
+  ⟨fun cs e a b => (h.read cs e a b).symm, fun cs a => (h.readDir cs a).symm,
+   fun cs e a b => (h.existFile cs e a b).symm, fun cs a => (h.existDir cs a).symm⟩
+
+theorem ViewEqWf.trans {u v w} (h : ViewEqWf u v) (h' : ViewEqWf v w) : ViewEqWf u w :=
+  ⟨fun cs e a b => (h.read cs e a b).trans (h'.read cs e a b), fun cs a => (h.readDir cs a).trans (h'.readDir cs a),
+   fun cs e a b => (h.existFile cs e a b).trans (h'.existFile cs e a b), fun cs a => (h.existDir cs a).trans (h'.existDir cs a)⟩
+
+/-- Full strength: on well-formed ids the file-system view of a valid tree is the specification
+view — `read`, `read_dir`, `exists` of both kinds, the root included; a directory is not a file,
+a file is not a directory, and everything absent (also below a file) is *not found*. -/
+def C04_fs_stmt : Prop := ∀ t, ValidTree t → ViewEqWf (fsView t) (sem t)
 
 theorem comps_of_id (cs : List Name) (hv : ∀ c ∈ cs, ValidName c) :
     (splitDot (joinDot cs)).filter (· ≠ []) = cs := by
@@ -576,27 +658,134 @@ theorem filePath_not_dir (t : Tree) (hv : ValidTree t) (ini : List Name) (l ext 
   have hx : ext.isEmpty = false := by cases ext <;> simp_all
   exact this.2 (by simp [fileName, hx])
 
-/-- **FileSystem, outside kind confusion**: for a well-formed file id (valid components) whose
-path does not run through an extension-less file, and which is not `(directory id, "")`,
-`FileSystem::read` and `exists(File ..)` answer as the specification does. -/
-theorem C04_fs_partial (t : Tree) (hv : ValidTree t) (ini : List Name) (l ext : Name)
-    (hi : ∀ c ∈ ini, ValidName c) (hl : ValidName l) (hx : ValidExt ext)
-    (hthrough : fsResolve t (filePath ⟨ini, l, ext, []⟩) ≠ .notDir)
-    (hkind : ¬ (ext = [] ∧ ini ++ [l] ∈ t.dirs)) :
-    (fsView t).read (joinDot (ini ++ [l])) ext = (sem t).read (joinDot (ini ++ [l])) ext ∧
-    (fsView t).exist (.file (joinDot (ini ++ [l])) ext) = (sem t).exist (.file (joinDot (ini ++ [l])) ext) := by
+/-- Every prefix of a directory of a valid tree is the root or a directory of the tree. -/
+theorem prefix_dir (t : Tree) (hv : ValidTree t) : ∀ (n : Nat) (q : List Name), q.length = n → (q = [] ∨ q ∈ t.dirs) →
+    ∀ k, q.take k = [] ∨ q.take k ∈ t.dirs := by
+  intro n
+  induction n with
+  | zero =>
+    intro q hq _ k
+    have : q = [] := List.length_eq_zero_iff.mp hq
+    left; simp [this]
+  | succ n ih =>
+    intro q hq hd k
+    rcases hd with hd | hd
+    · left; simp [hd]
+    · by_cases hk : q.length ≤ k
+      · right; rw [List.take_of_length_le hk]; exact hd
+      · have hk' : k ≤ q.length - 1 := by omega
+        have : q.take k = q.dropLast.take k := by
+          rw [List.dropLast_eq_take, List.take_take, Nat.min_eq_left hk']
+        rw [this]
+        apply ih q.dropLast (by simp [hq])
+        rcases (hv.2.1 q hd).2.2 with h | h
+        · exact Or.inl h
+        · exact Or.inr h
+
+/-- A directory of the tree resolves to a directory. -/
+theorem fsResolve_dir (t : Tree) (hv : ValidTree t) (q : List Name) (hq : q = [] ∨ q ∈ t.dirs) :
+    fsResolve t q = .found .dir := by
+  have hpre := prefix_dir t hv q.length q rfl hq
+  have hnode : ∀ p, (p = [] ∨ p ∈ t.dirs) → fsNode t p = some .dir := by
+    intro p hp; simp [fsNode, hp]
+  unfold fsResolve
+  have hany : (List.range q.length).any (fun k => isFileNode (fsNode t (q.take k))) = false := by
+    apply List.any_eq_false.mpr
+    intro k _
+    rw [hnode _ (hpre k)]; simp [isFileNode]
+  rw [hany]
+  simp [hnode q hq]
+
+/-- Anything else does not. -/
+theorem fsResolve_not_dir (t : Tree) (q : List Name) (hq : ¬ (q = [] ∨ q ∈ t.dirs)) :
+    fsResolve t q ≠ .found .dir := by
+  unfold fsResolve
+  split
+  · simp
+  · simp only [fsNode, hq, if_false]
+    cases t.files.find? (fun f => decide (filePath f = q)) <;> simp
+
+theorem isDirId_joinDot (t : Tree) (hv : ValidTree t) (cs : List Name) (hcs : WfComps cs) :
+    isDirId t (joinDot cs) = true ↔ (cs = [] ∨ cs ∈ t.dirs) := by
+  rw [isDirId_iff]
+  constructor
+  · rintro (h | ⟨q, hq, h⟩)
+    · left
+      cases cs with
+      | nil => rfl
+      | cons c cs' => exact absurd h (joinDot_ne_nil _ (by simp) (fun x hx => (hcs x hx).1))
+    · right
+      have := joinDot_inj q cs (hv.2.1 q hq).2.1 hcs h
+      rw [← this]; exact hq
+  · rintro (h | h)
+    · left; rw [h]; rfl
+    · right; exact ⟨cs, h, rfl⟩
+
+theorem childId_joinDot (cs : List Name) (s : Name) (hcs : WfComps cs) :
+    childId (joinDot cs) s = joinDot (cs ++ [s]) := by
+  unfold childId
+  cases cs with
+  | nil => simp [joinDot]
+  | cons c cs' =>
+    have hne : joinDot (c :: cs') ≠ [] := joinDot_ne_nil _ (by simp) (fun x hx => (hcs x hx).1)
+    have : (joinDot (c :: cs')).isEmpty = false := by
+      cases h : joinDot (c :: cs') with
+      | nil => exact absurd h hne
+      | cons _ _ => rfl
+    rw [joinDot_snoc _ _ (by simp)]
+    simp [this]
+
+/-- `FileSystem::read_dir` of a directory lists exactly the tree's entries (in the same order). -/
+theorem fsChildren_eq (t : Tree) (hv : ValidTree t) (cs : List Name) (hcs : WfComps cs) :
+    fsChildren t cs (joinDot cs) = (regsOfTree t).filterMap (childEntry (joinDot cs)) := by
+  unfold fsChildren regsOfTree
+  rw [List.filterMap_append, List.filterMap_map, List.filterMap_map]
+  congr 1
+  · apply filterMap_congr'
+    intro f hf
+    have hfv := hv.1 f hf
+    obtain ⟨h1, h2⟩ := splitExt_fileName f hfv.2.1 hfv.2.2.1
+    by_cases hd : f.dir = cs
+    · have : joinDot f.dir = joinDot cs := by rw [hd]
+      have hid : childId (joinDot cs) f.stem = fileId f := by rw [childId_joinDot cs _ hcs, ← hd]; rfl
+      simp [childEntry, fileReg, Reg.entry, dirId, hd, h1, h2, hid]
+    · have : ¬ joinDot f.dir = joinDot cs := fun e => hd (joinDot_inj _ _ hfv.1 hcs e)
+      simp [childEntry, fileReg, Reg.entry, dirId, hd, this]
+  · apply filterMap_congr'
+    intro q hq
+    have hqv := hv.2.1 q hq
+    have hlast : q = q.dropLast ++ [q.getLast hqv.1] := (List.dropLast_concat_getLast hqv.1).symm
+    have hl : ValidName (q.getLast hqv.1) := hqv.2.1 _ (List.getLast_mem hqv.1)
+    have hdl : WfComps q.dropLast := fun c hc => hqv.2.1 c (List.dropLast_subset q hc)
+    have hg : q.getLast? = some (q.getLast hqv.1) := List.getLast?_eq_some_getLast hqv.1
+    by_cases hd : q.dropLast = cs
+    · have : joinDot q.dropLast = joinDot cs := by rw [hd]
+      have hid : childId (joinDot cs) (q.getLast hqv.1) = joinDot q := by
+        rw [childId_joinDot cs _ hcs, ← hd, ← hlast]
+      simp [childEntry, dirReg, Reg.entry, dirId, hg, hd, splitExt_dotfree _ hl, hid]
+    · have : ¬ joinDot q.dropLast = joinDot cs := fun e => hd (joinDot_inj _ _ hdl hcs e)
+      simp [childEntry, dirReg, Reg.entry, dirId, hg, hd, this]
+
+theorem fileId_ne_nil (t : Tree) (hv : ValidTree t) (f : FileN) (hf : f ∈ t.files) : fileId f ≠ [] := by
+  have hfv := hv.1 f hf
+  apply joinDot_ne_nil _ (by simp)
+  intro c hc
+  rcases List.mem_append.mp hc with h | h
+  · exact (hfv.1 c h).1
+  · rw [List.mem_singleton.mp h]; exact hfv.2.1.1
+
+/-- How the path of a well-formed file id resolves: to the file with that id and extension if
+the tree has one, and to no file otherwise. -/
+theorem fsResolve_file (t : Tree) (hv : ValidTree t) (ini : List Name) (l ext : Name)
+    (hi : ∀ c ∈ ini, ValidName c) (hl : ValidName l) (hx : ValidExt ext) :
+    match t.files.find? (fun f => decide (fileId f = joinDot (ini ++ [l]) ∧ f.ext = ext)) with
+    | some f => fsResolve t (filePath ⟨ini, l, ext, []⟩) = .found (.file f.bytes)
+    | none => ∀ b, fsResolve t (filePath ⟨ini, l, ext, []⟩) ≠ .found (.file b) := by
   have hvcs : ∀ c ∈ ini ++ [l], ValidName c := by
     intro c hc
     rcases List.mem_append.mp hc with h | h
     · exact hi c h
     · simpa [List.mem_singleton.mp h] using hl
-  -- the path is not a directory
-  have hnd : ¬ (filePath ⟨ini, l, ext, []⟩ = [] ∨ filePath ⟨ini, l, ext, []⟩ ∈ t.dirs) := by
-    rintro (h | h)
-    · simp [filePath] at h
-    · by_cases hext : ext = []
-      · apply hkind; refine ⟨hext, ?_⟩; simpa [filePath, fileName, hext] using h
-      · exact filePath_not_dir t hv ini l ext hext h
   -- both sides look for the same file
   have hpred : ∀ f ∈ t.files, (decide (filePath f = filePath ⟨ini, l, ext, []⟩)) =
       decide (fileId f = joinDot (ini ++ [l]) ∧ f.ext = ext) := by
@@ -616,22 +805,168 @@ theorem C04_fs_partial (t : Tree) (hv : ValidTree t) (ini : List Name) (l ext : 
   have hfind : t.files.find? (fun f => decide (filePath f = filePath ⟨ini, l, ext, []⟩)) =
       t.files.find? (fun f => decide (fileId f = joinDot (ini ++ [l]) ∧ f.ext = ext)) :=
     find?_congr' _ _ _ hpred
-  have hres : fsResolve t (filePath ⟨ini, l, ext, []⟩) =
-      match t.files.find? (fun f => decide (fileId f = joinDot (ini ++ [l]) ∧ f.ext = ext)) with
-      | some f => .found (.file f.bytes)
-      | none => .absent := by
-    unfold fsResolve at hthrough ⊢
-    split
-    · rename_i h; simp [h] at hthrough
-    · simp only [fsNode, hnd, if_false, hfind]
-      cases t.files.find? (fun f => decide (fileId f = joinDot (ini ++ [l]) ∧ f.ext = ext)) <;> rfl
-  constructor
-  · simp only [fsView, pathOfEntry_file ini l ext hi hl, hres, sem]
-    cases t.files.find? (fun f => decide (fileId f = joinDot (ini ++ [l]) ∧ f.ext = ext)) <;> rfl
-  · simp only [fsView, pathOfEntry_file ini l ext hi hl, hres, sem, any_eq_find_isSome]
-    cases t.files.find? (fun f => decide (fileId f = joinDot (ini ++ [l]) ∧ f.ext = ext)) <;> rfl
+  cases hfd : t.files.find? (fun f => decide (fileId f = joinDot (ini ++ [l]) ∧ f.ext = ext)) with
+  | none =>
+    intro b hb
+    have hnode : fsNode t (filePath ⟨ini, l, ext, []⟩) ≠ some (.file b) := by
+      intro hn
+      unfold fsNode at hn
+      by_cases hdd : filePath ⟨ini, l, ext, []⟩ = [] ∨ filePath ⟨ini, l, ext, []⟩ ∈ t.dirs
+      · rw [if_pos hdd] at hn; cases hn
+      · rw [if_neg hdd, hfind, hfd] at hn; cases hn
+    unfold fsResolve at hb
+    by_cases ha : (List.range (filePath ⟨ini, l, ext, []⟩).length).any
+        (fun k => isFileNode (fsNode t ((filePath ⟨ini, l, ext, []⟩).take k))) = true
+    · rw [if_pos ha] at hb; cases hb
+    · rw [if_neg ha] at hb
+      cases hn : fsNode t (filePath ⟨ini, l, ext, []⟩) with
+      | none => rw [hn] at hb; cases hb
+      | some n =>
+        rw [hn] at hb
+        injection hb with hb
+        rw [hb] at hn
+        exact hnode hn
+  | some f =>
+    have hf : f ∈ t.files := List.mem_of_find?_eq_some hfd
+    have hp := List.find?_some hfd
+    simp only [decide_eq_true_eq] at hp
+    have hfv := hv.1 f hf
+    have hfcs : ∀ c ∈ f.dir ++ [f.stem], ValidName c := by
+      intro c hc
+      rcases List.mem_append.mp hc with h | h
+      · exact hfv.1 c h
+      · simpa [List.mem_singleton.mp h] using hfv.2.1
+    obtain ⟨hdir, hstem⟩ := List.append_singleton_inj.mp (joinDot_inj _ _ hfcs hvcs hp.1)
+    have hdirs : ini = [] ∨ ini ∈ t.dirs := by rw [← hdir]; exact hfv.2.2.2
+    -- the path itself is not a directory
+    have hnd : ¬ (filePath ⟨ini, l, ext, []⟩ = [] ∨ filePath ⟨ini, l, ext, []⟩ ∈ t.dirs) := by
+      rintro (h | h)
+      · simp [filePath] at h
+      · by_cases hext : ext = []
+        · have h5 := hv.2.2.2.2 f hf (hp.2.trans hext)
+          apply h5
+          rw [hdir, hstem]
+          simpa [filePath, fileName, hext] using h
+        · exact filePath_not_dir t hv ini l ext hext h
+    -- no proper prefix of it is a file: they are prefixes of the directory `ini`
+    have hpre := prefix_dir t hv ini.length ini rfl hdirs
+    have hany : (List.range (filePath ⟨ini, l, ext, []⟩).length).any
+        (fun k => isFileNode (fsNode t ((filePath ⟨ini, l, ext, []⟩).take k))) = false := by
+      apply List.any_eq_false.mpr
+      intro k hk
+      have hk' : k ≤ ini.length := by
+        have := List.mem_range.mp hk
+        simp [filePath] at this
+        omega
+      have : (filePath ⟨ini, l, ext, []⟩).take k = ini.take k := by
+        simp only [filePath]
+        rw [List.take_append_of_le_length hk']
+      rw [this]
+      have hn : fsNode t (ini.take k) = some .dir := by
+        unfold fsNode; rw [if_pos (hpre k)]
+      rw [hn]; simp [isFileNode]
+    unfold fsResolve
+    rw [hany]
+    simp only [fsNode, hnd, if_false, hfind, hfd]
+    simp
 
-example : fsResolve witnessTree (filePath ⟨[['d'], ['e']], ['f'], ['x'], []⟩) ≠ .notDir ∧
-    ¬ ((['x'] : Name) = [] ∧ [['d'], ['e']] ++ [['f']] ∈ witnessTree.dirs) := by decide
+/-- **FileSystem, full strength** (on well-formed ids). -/
+theorem C04_fs : C04_fs_stmt := by
+  intro t hv
+  have hdirView : ∀ cs, WfComps cs →
+      (fsView t).readDir (joinDot cs) =
+        (if cs = [] ∨ cs ∈ t.dirs then .ok (fsChildren t cs (joinDot cs)) else .err .notFound) ∧
+      (fsView t).exist (.dir (joinDot cs)) = decide (cs = [] ∨ cs ∈ t.dirs) := by
+    intro cs hcs
+    have hpath : pathOfEntry (joinDot cs) none = some cs := by
+      have := comps_of_id cs hcs
+      simp only [pathOfEntry]; rw [this]
+    by_cases hd : cs = [] ∨ cs ∈ t.dirs
+    · simp [fsView, fsViewWith, hpath, fsResolve_dir t hv cs hd, hd]
+    · have hn := fsResolve_not_dir t cs hd
+      simp only [fsView, fsViewWith, hpath, hd, if_false, fsCfg, decide_false]
+      cases hr : fsResolve t cs with
+      | found n => cases n with
+        | dir => exact absurd hr hn
+        | file b => simp
+      | absent => simp
+      | notDir => simp
+  have hfileView : ∀ cs ext, WfComps cs → ValidExt ext →
+      (fsView t).read (joinDot cs) ext = (sem t).read (joinDot cs) ext ∧
+      (fsView t).exist (.file (joinDot cs) ext) = (sem t).exist (.file (joinDot cs) ext) := by
+    intro cs ext hcs hx
+    rcases List.eq_nil_or_concat cs with rfl | ⟨ini, l, hcl⟩
+    · -- the root id is not a file
+      have hnone : t.files.find? (fun f => decide (fileId f = joinDot [] ∧ f.ext = ext)) = none := by
+        apply List.find?_eq_none.mpr
+        intro f hf
+        have := fileId_ne_nil t hv f hf
+        simp [joinDot, this]
+      have hsem : (sem t).read (joinDot []) ext = .err .notFound ∧ (sem t).exist (.file (joinDot []) ext) = false := by
+        simp only [sem, any_eq_find_isSome, hnone]; simp
+      rw [hsem.1, hsem.2]
+      by_cases he : ext = []
+      · have hpath : pathOfEntry (joinDot []) (some ext) = some [] := by simp [pathOfEntry, joinDot, splitDot, he]
+        simp [fsView, fsViewWith, hpath, fsResolve_dir t hv [] (Or.inl rfl), fsCfg]
+      · have hemp : ext.isEmpty = false := by cases ext <;> simp_all
+        have hpath : pathOfEntry (joinDot []) (some ext) = none := by simp [pathOfEntry, joinDot, splitDot, hemp]
+        simp [fsView, fsViewWith, hpath]
+    · rw [List.concat_eq_append] at hcl
+      subst hcl
+      have hi : ∀ c ∈ ini, ValidName c := fun c hc => hcs c (by simp [hc])
+      have hl : ValidName l := hcs l (by simp)
+      have hres := fsResolve_file t hv ini l ext hi hl hx
+      have hpath := pathOfEntry_file ini l ext hi hl
+      cases hfd : t.files.find? (fun f => decide (fileId f = joinDot (ini ++ [l]) ∧ f.ext = ext)) with
+      | some f =>
+        rw [hfd] at hres
+        simp only [fsView, fsViewWith, hpath, sem, any_eq_find_isSome, hfd]
+        rw [hres]; simp
+      | none =>
+        rw [hfd] at hres
+        simp only [fsView, fsViewWith, hpath, sem, any_eq_find_isSome, hfd, fsCfg]
+        cases hr : fsResolve t (filePath ⟨ini, l, ext, []⟩) with
+        | found n => cases n with
+          | file b => exact absurd hr (hres b)
+          | dir => simp
+        | absent => simp
+        | notDir => simp
+  refine ⟨fun cs ext hcs hx => (hfileView cs ext hcs hx).1, ?_, fun cs ext hcs hx => (hfileView cs ext hcs hx).2, ?_⟩
+  · intro cs hcs
+    rw [(hdirView cs hcs).1]
+    simp only [sem]
+    by_cases hd : cs = [] ∨ cs ∈ t.dirs
+    · rw [if_pos hd, if_pos ((isDirId_joinDot t hv cs hcs).mpr hd), fsChildren_eq t hv cs hcs]
+      exact List.Perm.refl _
+    · have : ¬ isDirId t (joinDot cs) = true := fun h => hd ((isDirId_joinDot t hv cs hcs).mp h)
+      rw [if_neg hd, if_neg this]; rfl
+  · intro cs hcs
+    rw [(hdirView cs hcs).2]
+    simp only [sem]
+    by_cases hd : cs = [] ∨ cs ∈ t.dirs
+    · rw [(isDirId_joinDot t hv cs hcs).mpr hd]; simp [hd]
+    · have : isDirId t (joinDot cs) = false := by
+        cases h : isDirId t (joinDot cs) with
+        | false => rfl
+        | true => exact absurd ((isDirId_joinDot t hv cs hcs).mp h) hd
+      rw [this]; simp [hd]
+
+/-- Kind confusion's former witnesses, now instances: in the tree with the single directory `d`
+there is no file `d`, reading it is *not found*; a file `a` is not a directory. -/
+example : (fsView ⟨[], [[['d']]]⟩).exist (.file ['d'] []) = false ∧
+    (fsView ⟨[], [[['d']]]⟩).read ['d'] [] = .err .notFound ∧
+    (fsView ⟨[⟨[], ['a'], [], []⟩], []⟩).exist (.dir ['a']) = false ∧
+    (fsView ⟨[⟨[], ['a'], [], []⟩], []⟩).readDir ['a'] = .err .notFound ∧
+    (fsView ⟨[⟨[], ['a'], [], []⟩], []⟩).read ['a', '.', 'b'] ['x'] = .err .notFound := by decide
+
+/-- **All four sources agree** on every well-formed id: the file system, every archive of the
+tree and the embedded form answer alike. -/
+theorem C04_sources_agree (t : Tree) (ms : List Member) (hv : ValidTree t) (ha : Archives t ms) :
+    ViewEqWf (fsView t) (viewOfIdx (index ms)) ∧
+    ViewEqWf (fsView t) (viewOfIdx (embeddedFrom (embedTables t))) ∧
+    ViewEq (viewOfIdx (index ms)) (viewOfIdx (embeddedFrom (embedTables t))) :=
+  ⟨(C04_fs t hv).trans (C04_archive t ms hv ha).toWf.symm,
+   (C04_fs t hv).trans (C04_embedded t hv).toWf.symm,
+   (C04_archive t ms hv ha).trans (C04_embedded t hv).symm⟩
 
 end AmVerif.Props.C04
